@@ -101,6 +101,11 @@ def histories(draw, kind, tier):
         # (a keyword named like the wrapped function's own first parameter is the caller's error everywhere)
         call = CALL.map(lambda c: (c[0], [(("other" if k in ("self", "cls") else k), v) for k, v in c[1]]))
     pool = draw(st.lists(call, min_size=2, max_size=6))
+    if draw(st.integers(0, 3)) == 0:
+        # equal values of different types in SWAPPED places: f(1, 1.0) and f(1.0, 1) (and as keyword values) are the
+        # same call for an untyped cache and different calls for a typed one
+        x, y = draw(st.sampled_from([(1, 3), (1, 5), (3, 5), (0, 6), (2, 4), (1, 19), (3, 20)]))  # indexes into VALUES
+        pool += [([x, y], []), ([y, x], [])] if draw(st.booleans()) else [([], [("a", x), ("b", y)]), ([], [("a", y), ("b", x)])]
     pick = st.one_of(st.sampled_from(pool), st.sampled_from(pool), st.sampled_from(pool), call)
     op = st.one_of(
         st.tuples(st.just("call"), st.integers(0, 1), pick),
